@@ -57,14 +57,18 @@ ObsTxnEnd(o) == [o EXCEPT !.acc = <<>>, !.plan = <<>>]
 ObsAddRcpt(o, r, res) == IF res = "ok" THEN [o EXCEPT !.acc = Append(@, r)] ELSE o
 
 (* sts : sequence of [k, v] the collector received during BodyNonAtomic *)
-ObsStatuses(o, kind, sts) ==
+(* the part of the statement that needs no knowledge of what the next hop answered *)
+ObsStatusKeys(o, sts) ==
   LET keys == [i \in 1..Len(sts) |-> sts[i].k]
       accS == {o.acc[i] : i \in 1..Len(o.acc)}
       o1 == V(o,  \A i \in 1..Len(sts) : sts[i].k \in accS, "StatusForOtherAddress")
       o2 == V(o1, \A r \in accS : Count(keys, r) >= 1, "MissingStatus")
-      o3 == V(o2, \A r \in accS : Count(keys, r) <= Count(o.acc, r), "DuplicateStatus")
-      o4 == V(o3, \A i \in 1..Len(sts) : sts[i].k \in accS =>
-                     \E t \in TruthSet(kind, o.plan, o.acc, sts[i].k) : Truthful(sts[i].v, t),
-              "ResultOfAnotherRecipient")
-  IN o4
+  IN V(o2, \A r \in accS : Count(keys, r) <= Count(o.acc, r), "DuplicateStatus")
+
+ObsStatuses(o, kind, sts) ==
+  LET accS == {o.acc[i] : i \in 1..Len(o.acc)}
+  IN V(ObsStatusKeys(o, sts),
+       \A i \in 1..Len(sts) : sts[i].k \in accS =>
+          \E t \in TruthSet(kind, o.plan, o.acc, sts[i].k) : Truthful(sts[i].v, t),
+       "ResultOfAnotherRecipient")
 =============================================================================
